@@ -739,3 +739,461 @@ Proof.
       * exists c'. split; [exact R1|]. split; [exact R2|]. split; [exact R3|].
         split; [exact R4|]. split; [exact R5|exact R6].
 Qed.
+
+Definition dready (c : dyn) : Prop := lenN (dbuf c) < 2 * dW c + 258 \/ 2 * dW c <= didx c.
+
+Lemma fuel_block : forall c, (N.to_nat (lenN (dbuf c) - didx c) < S (S (length (dbuf c))))%nat.
+Proof. intros c. unfold lenN. lia. Qed.
+
+(* Compress from Writer.Write *)
+Lemma compress_dinv : forall W D c, dinv W D c -> nonfinal (dtrace (ddest c)) ->
+  exists c', dyn_compress_block c false false = (c', false) /\ dinv W D c' /\
+    nonfinal (dtrace (ddest c')) /\ dready c'.
+Proof.
+  intros W D c Hd Hnf. unfold dyn_compress_block. cbn [andb].
+  destruct (loop_dinv W D false false _ c Hd Hnf (fuel_block c)) as (c' & R1 & R2 & R3 & R4 & _ & R6).
+  exists c'. split; [exact R1|]. split; [exact R2|]. split; [exact (R6 eq_refl)|].
+  destruct R2 as (_ & HW & _ & _ & _ & Hcap & _). unfold dready. rewrite HW, R3 in *. lia.
+Qed.
+
+Lemma bb_take_empty_acc : forall final b, bb_acc (snd (bb_take (bb_empty_block final b))) = [].
+Proof. reflexivity. Qed.
+
+(* Flush *)
+Lemma flush_dinv : forall W D c, dinv W D c -> nonfinal (dtrace (ddest c)) ->
+  exists c', dyn_flush c = (c', false) /\ dinv W D c' /\ nonfinal (dtrace (ddest c')) /\ dready c' /\
+    (exists t, dtrace (ddest c') = ESync :: t) /\
+    tr_ok W (rev (dtrace (ddest c'))) (rev D) /\ bb_acc (dbb c') = [].
+Proof.
+  intros W D c Hd Hnf. unfold dyn_flush, dyn_compress_block. cbn [andb].
+  destruct (loop_dinv W D true false _ c Hd Hnf (fuel_block c)) as (c1 & R1 & R2 & R3 & R4 & R5 & R6).
+  rewrite R1. destruct (R5 eq_refl) as (R5a & R5b & _). specialize (R6 eq_refl).
+  pose proof (bb_take_empty_acc false (dbb c1)) as Hacc.
+  destruct (bb_take (bb_empty_block false (dbb c1))) as [chunk bb]. cbn [snd] in Hacc.
+  destruct R2 as (Ho & HW & Hfail & HbD & Hnt & Hcap & X & HD & Hproc & Hg).
+  destruct (dest_write_healthy (dest_event (ddest c1) ESync) chunk Hfail) as (d1 & E1 & F1 & T1).
+  rewrite E1. cbn [dest_event dtrace] in T1.
+  eexists. split; [reflexivity|]. split; [|split; [|split; [|split; [|split]]]].
+  - split; [eapply oinv_frame; [exact Ho|reflexivity..]|]. split; [exact HW|].
+    split; [exact F1|]. split; [exact HbD|]. split; [exact Hnt|]. split; [exact Hcap|].
+    exists X. split; [exact HD|]. split; [exact Hproc|].
+    cbn [ddest dtoks dbuf didx]. rewrite T1. apply ghost_sync. exact Hg.
+  - cbn [ddest]. rewrite T1. constructor; [reflexivity|exact R6].
+  - unfold dready. cbn [dbuf dW didx]. rewrite HW, R3 in *. lia.
+  - cbn [ddest]. rewrite T1. eexists. reflexivity.
+  - cbn [ddest]. rewrite T1. cbn [rev]. apply tr_ok_sync. rewrite HD. apply ghost_final.
+    rewrite R5a, R5b, <- R3 in Hg. exact Hg.
+  - exact Hacc.
+Qed.
+
+(* Close *)
+Lemma close_dinv : forall W D c, dinv W D c -> nonfinal (dtrace (ddest c)) ->
+  exists c', dyn_compress_block c true true = (c', false) /\ doob c' = false /\
+    trace_complete (rev (dtrace (ddest c'))) = true /\
+    tr_ok W (rev (dtrace (ddest c'))) (rev D).
+Proof.
+  intros W D c Hd Hnf. unfold dyn_compress_block. cbn [andb].
+  destruct (lenN (dbuf c) =? 0) eqn:E0.
+  - destruct Hd as (Ho & HW & Hfail & HbD & Hnt & Hcap & X & HD & Hproc & Hg).
+    destruct (bb_take (bb_empty_block true (dbb c))) as [chunk bb].
+    destruct (dest_write_healthy (dest_event (ddest c) EFinalEmpty) chunk Hfail) as (d1 & E1 & F1 & T1).
+    rewrite E1. cbn [dest_event dtrace] in T1.
+    eexists. split; [reflexivity|]. cbn [doob ddest]. rewrite T1. cbn [rev].
+    pose proof Ho as (O1 & _ & O3 & O4 & O5).
+    split; [exact O3|]. split.
+    + rewrite trace_complete_snoc; [reflexivity|]. apply Forall_rev. exact Hnf.
+    + assert (Hb0 : dbuf c = []) by (apply lenN_0; lia).
+      assert (HX : X = []) by (apply lenN_0; lia).
+      rewrite Hb0, HX in *. subst D. cbn [app rev]. apply tr_ok_fempty.
+      eapply ghost_empty. exact Hg.
+  - destruct (loop_dinv W D true true _ c Hd Hnf (fuel_block c)) as (c1 & R1 & R2 & R3 & R4 & R5 & _).
+    exists c1. split; [exact R1|].
+    destruct (R5 eq_refl) as (R5a & R5b & ts & t & R5c & R5d).
+    destruct R2 as (Ho & HW & Hfail & HbD & Hnt & Hcap & X & HD & Hproc & Hg).
+    split; [apply Ho|]. split.
+    + rewrite R5c. cbn [rev]. rewrite trace_complete_snoc; [reflexivity|]. apply Forall_rev. exact R5d.
+    + rewrite HD. apply ghost_final. rewrite R5a, R5b, <- R3 in Hg. exact Hg.
+Qed.
+
+(* Accumulate *)
+Lemma dinv_pre : forall W D c, dinv W D c -> dready c ->
+  dinv W D (dpre c) /\ lenN (dbuf (dpre c)) < 2 * W + 258 /\ ddest (dpre c) = ddest c.
+Proof.
+  intros W D c Hd Hr. unfold dpre. destruct (2 * dW c <=? didx c) eqn:E.
+  - destruct Hd as (Ho & HW & Hfail & HbD & Hnt & Hcap & X & HD & Hproc & Hg).
+    pose proof Ho as (O1 & O2 & O3 & O4 & O5).
+    assert (Hlen : lenN (skipn (N.to_nat (didx c - dW c)) (dbuf c)) = lenN (dbuf c) - (didx c - dW c)).
+    { unfold lenN. rewrite skipn_length. lia. }
+    split; [|split; [cbn [dslide dbuf]; lia|reflexivity]].
+    split; [apply slide_oinv; [exact Ho|lia]|]. split; [exact HW|]. split; [exact Hfail|].
+    split; [exact HbD|]. split; [exact Hnt|]. split; [cbn [dslide dbuf]; lia|].
+    exists (X ++ firstn (N.to_nat (didx c - dW c)) (dbuf c)).
+    cbn [dslide dbuf didx dproc ddest dtoks].
+    split; [rewrite <- app_assoc, firstn_skipn; exact HD|]. split.
+    + rewrite lenN_app, lenN_firstn by lia. lia.
+    + apply ghost_slide; [exact Hg|lia].
+  - split; [exact Hd|]. split; [|reflexivity].
+    destruct Hd as (_ & HW & _). unfold dready in Hr. rewrite HW in *. lia.
+Qed.
+
+Lemma dinv_append : forall W D c chunk, dinv W D c -> bytes_ok chunk ->
+  lenN (dbuf c) + lenN chunk <= 2 * W + 258 -> dinv W (D ++ chunk) (dappend c chunk).
+Proof.
+  intros W D c chunk (Ho & HW & Hfail & HbD & Hnt & Hcap & X & HD & Hproc & Hg) Hb Hlen.
+  pose proof Ho as (O1 & O2 & O3 & O4 & O5).
+  split; [apply append_oinv; exact Ho|]. split; [exact HW|]. split; [exact Hfail|].
+  split; [apply Forall_app; split; assumption|]. split; [exact Hnt|].
+  cbn [dappend dbuf didx dproc ddest dtoks].
+  split; [rewrite lenN_app; lia|].
+  exists X. split; [rewrite HD, app_assoc; reflexivity|]. split; [exact Hproc|].
+  apply ghost_append; assumption.
+Qed.
+
+Lemma accumulate_dinv : forall W D c data, dinv W D c -> nonfinal (dtrace (ddest c)) -> dready c ->
+  bytes_ok data -> data <> [] ->
+  exists c1 k trig, dyn_accumulate c data = (c1, k, trig) /\ (1 <= k)%nat /\
+    dinv W (D ++ firstn k data) c1 /\ nonfinal (dtrace (ddest c1)) /\
+    (trig = false -> dready c1).
+Proof.
+  intros W D c data Hd Hnf Hr Hb Hne. rewrite accumulate_unfold. cbv zeta.
+  destruct (dinv_pre W D c Hd Hr) as (Hd1 & Hl1 & Hdest).
+  set (c1 := dpre c) in *.
+  set (chunk := firstn (N.to_nat (dyn_cap c1 - lenN (dbuf c1))) data).
+  assert (HW1 : dW c1 = W) by apply Hd1.
+  assert (Hcl : lenN chunk <= dyn_cap c1 - lenN (dbuf c1)).
+  { unfold chunk, lenN. rewrite firstn_length. lia. }
+  unfold dyn_cap in *. rewrite HW1 in *.
+  eexists _, _, _. split; [reflexivity|]. split; [|split; [|split]].
+  - unfold chunk. rewrite firstn_length. destruct data; [congruence|]. cbn [length].
+    unfold lenN in *. lia.
+  - unfold chunk at 1. rewrite firstn_firstn_len. fold chunk.
+    apply dinv_append; [exact Hd1|apply Forall_firstn_; exact Hb|lia].
+  - cbn [dappend ddest]. rewrite Hdest. exact Hnf.
+  - intros Et. unfold dready. cbn [dappend dW dbuf didx] in *. rewrite HW1 in *. lia.
+Qed.
+
+(* ------------------------------------------------------------------ *)
+(* huffmanOnly                                                          *)
+
+Definition hinv (W : N) (D : list N) (h : huf) : Prop :=
+  dfail (hdest h) = None /\ lenN (hbuf h) <= huf_max /\
+  exists H, tr_ok W (rev (dtrace (hdest h))) H /\ D = rev H ++ hbuf h.
+
+Lemma rev_cons_ev : forall (e : event) t, rev (e :: t) = rev t ++ [e].
+Proof. reflexivity. Qed.
+
+Lemma huf_encode_nonfinal : forall W D h, hinv W D h -> nonfinal (dtrace (hdest h)) ->
+  exists h', huf_encode_block h false = (h', false) /\ hinv W D h' /\
+    nonfinal (dtrace (hdest h')) /\ hbuf h' = [].
+Proof.
+  intros W D h (Hf & Hl & H & Ht & HD) Hnf. unfold huf_encode_block.
+  destruct (hbuf h) as [|x l] eqn:Eb.
+  - exists h. split; [reflexivity|]. split; [|split; [exact Hnf|exact Eb]].
+    split; [exact Hf|]. split; [rewrite Eb; exact Hl|]. exists H. rewrite Eb. split; assumption.
+  - destruct (hencode_block (x :: l) false (hbb h)) as [chunks bb].
+    destruct (dest_write_all_healthy chunks (dest_event (hdest h) (EHBlock (x :: l) false)) Hf)
+      as (d1 & E1 & F1 & T1).
+    rewrite E1. cbn [dest_event dtrace] in T1.
+    eexists. split; [reflexivity|]. unfold hinv. cbn [hdest hbuf]. rewrite T1.
+    split; [|split; [constructor; [reflexivity|exact Hnf]|reflexivity]].
+    split; [exact F1|]. split; [rewrite lenN_nil; unfold huf_max; lia|].
+    exists (rev (x :: l) ++ H). rewrite rev_cons_ev. split; [apply tr_ok_hblock; exact Ht|].
+    rewrite HD, app_nil_r.
+    rewrite rev_app_distr, rev_involutive. reflexivity.
+Qed.
+
+Lemma huf_encode_final : forall W D h, hinv W D h -> nonfinal (dtrace (hdest h)) ->
+  exists h', huf_encode_block h true = (h', false) /\
+    trace_complete (rev (dtrace (hdest h'))) = true /\
+    tr_ok W (rev (dtrace (hdest h'))) (rev D).
+Proof.
+  intros W D h (Hf & Hl & H & Ht & HD) Hnf. unfold huf_encode_block.
+  destruct (hbuf h) as [|x l] eqn:Eb.
+  - destruct (bb_take (bb_empty_block true (hbb h))) as [chunk bb].
+    destruct (dest_write_healthy (dest_event (hdest h) EFinalEmpty) chunk Hf) as (d1 & E1 & F1 & T1).
+    rewrite E1. cbn [dest_event dtrace] in T1.
+    eexists. split; [reflexivity|]. cbn [hdest]. rewrite T1, rev_cons_ev. split.
+    + rewrite trace_complete_snoc; [reflexivity|]. apply Forall_rev. exact Hnf.
+    + apply tr_ok_fempty. rewrite HD, app_nil_r, rev_involutive. exact Ht.
+  - destruct (hencode_block (x :: l) true (hbb h)) as [chunks bb].
+    destruct (dest_write_all_healthy chunks (dest_event (hdest h) (EHBlock (x :: l) true)) Hf)
+      as (d1 & E1 & F1 & T1).
+    rewrite E1. cbn [dest_event dtrace] in T1.
+    eexists. split; [reflexivity|]. cbn [hdest]. rewrite T1, rev_cons_ev. split.
+    + rewrite trace_complete_snoc; [reflexivity|]. apply Forall_rev. exact Hnf.
+    + rewrite HD, rev_app_distr, rev_involutive.
+      apply tr_ok_hblock. exact Ht.
+Qed.
+
+Lemma huf_flush_hinv : forall W D h, hinv W D h -> nonfinal (dtrace (hdest h)) ->
+  exists h', huf_flush h = (h', false) /\ hinv W D h' /\ nonfinal (dtrace (hdest h')) /\
+    hbuf h' = [] /\ (exists t, dtrace (hdest h') = ESync :: t) /\
+    tr_ok W (rev (dtrace (hdest h'))) (rev D) /\ bb_acc (hbb h') = [].
+Proof.
+  intros W D h Hh Hnf. unfold huf_flush.
+  destruct (huf_encode_nonfinal W D h Hh Hnf) as (h1 & E1 & Hh1 & Hnf1 & Hb1).
+  rewrite E1.
+  pose proof (bb_take_empty_acc false (hbb h1)) as Hacc.
+  destruct (bb_take (bb_empty_block false (hbb h1))) as [chunk bb]. cbn [snd] in Hacc.
+  destruct Hh1 as (Hf & Hl & H & Ht & HD).
+  destruct (dest_write_healthy (dest_event (hdest h1) ESync) chunk Hf) as (d1 & E2 & F2 & T2).
+  rewrite E2. cbn [dest_event dtrace] in T2.
+  eexists. split; [reflexivity|]. unfold hinv. cbn [hdest hbuf hbb]. rewrite T2, !rev_cons_ev.
+  split; [|split; [constructor; [reflexivity|exact Hnf1]|split; [exact Hb1|split; [eexists; reflexivity|split; [|exact Hacc]]]]].
+  - split; [exact F2|]. split; [exact Hl|]. exists H. split; [apply tr_ok_sync; exact Ht|exact HD].
+  - apply tr_ok_sync. rewrite HD, Hb1, app_nil_r, rev_involutive. exact Ht.
+Qed.
+
+Lemma huf_accumulate_hinv : forall W D h data, hinv W D h -> lenN (hbuf h) < huf_max ->
+  data <> [] ->
+  exists h1 k trig, huf_accumulate h data = (h1, k, trig) /\ (1 <= k)%nat /\
+    hinv W (D ++ firstn k data) h1 /\ hdest h1 = hdest h /\
+    (trig = false -> lenN (hbuf h1) < huf_max).
+Proof.
+  intros W D h data (Hf & Hl & H & Ht & HD) Hr Hne. unfold huf_accumulate.
+  set (chunk := firstn (N.to_nat (huf_max - lenN (hbuf h))) data).
+  assert (Hcl : lenN chunk <= huf_max - lenN (hbuf h)).
+  { unfold chunk, lenN. rewrite firstn_length. lia. }
+  eexists _, _, _. split; [reflexivity|]. cbn [hbuf hdest]. split; [|split; [|split]].
+  - unfold chunk. rewrite firstn_length. destruct data; [congruence|]. cbn [length].
+    unfold lenN in *. lia.
+  - unfold chunk at 1. rewrite firstn_firstn_len. fold chunk.
+    split; [exact Hf|]. cbn [hbuf hdest]. split; [rewrite lenN_app; lia|].
+    exists H. split; [exact Ht|]. rewrite HD, app_assoc. reflexivity.
+  - reflexivity.
+  - intros Et. rewrite lenN_app in *. lia.
+Qed.
+
+(* ------------------------------------------------------------------ *)
+(* both compressors                                                     *)
+
+Definition cinv (W : N) (D : list N) (c : comp) : Prop :=
+  match c with
+  | CDyn d => dinv W D d /\ nonfinal (dtrace (ddest d))
+  | CHuf h => hinv W D h /\ nonfinal (dtrace (hdest h))
+  end.
+Definition cready (c : comp) : Prop :=
+  match c with CDyn d => dready d | CHuf h => lenN (hbuf h) < huf_max end.
+
+Lemma c_accumulate_cinv : forall W D c data, cinv W D c -> cready c -> bytes_ok data -> data <> [] ->
+  exists c1 k trig, c_accumulate c data = (c1, k, trig) /\ (1 <= k)%nat /\
+    cinv W (D ++ firstn k data) c1 /\ (trig = false -> cready c1).
+Proof.
+  intros W D [d|h] data Hc Hr Hb Hne; cbn [c_accumulate cinv cready] in *.
+  - destruct Hc as (Hd & Hnf).
+    destruct (accumulate_dinv W D d data Hd Hnf Hr Hb Hne) as (c1 & k & trig & E & Hk & Hd1 & Hnf1 & Hr1).
+    rewrite E. exists (CDyn c1), k, trig. split; [reflexivity|]. split; [exact Hk|].
+    split; [split; assumption|exact Hr1].
+  - destruct Hc as (Hh & Hnf).
+    destruct (huf_accumulate_hinv W D h data Hh Hr Hne) as (h1 & k & trig & E & Hk & Hh1 & Hd1 & Hr1).
+    rewrite E. exists (CHuf h1), k, trig. split; [reflexivity|]. split; [exact Hk|].
+    split; [split; [exact Hh1|rewrite Hd1; exact Hnf]|exact Hr1].
+Qed.
+
+Lemma c_compress_cinv : forall W D c, cinv W D c ->
+  exists c', c_compress c = (c', false) /\ cinv W D c' /\ cready c'.
+Proof.
+  intros W D [d|h] Hc; cbn [c_compress cinv] in *.
+  - destruct Hc as (Hd & Hnf).
+    destruct (compress_dinv W D d Hd Hnf) as (c' & E & Hd1 & Hnf1 & Hr1).
+    rewrite E. exists (CDyn c'). split; [reflexivity|]. split; [split; assumption|exact Hr1].
+  - destruct Hc as (Hh & Hnf).
+    destruct (huf_encode_nonfinal W D h Hh Hnf) as (h' & E & Hh1 & Hnf1 & Hb1).
+    rewrite E. exists (CHuf h'). split; [reflexivity|]. split; [split; assumption|].
+    cbn [cready]. rewrite Hb1, lenN_nil. unfold huf_max. lia.
+Qed.
+
+Definition c_acc (c : comp) : list bool :=
+  match c with CDyn d => bb_acc (dbb d) | CHuf h => bb_acc (hbb h) end.
+
+Lemma c_flush_cinv : forall W D c, cinv W D c ->
+  exists c', c_flush c = (c', false) /\ cinv W D c' /\ cready c' /\
+    (exists t, dtrace (c_dest c') = ESync :: t) /\
+    tr_ok W (rev (dtrace (c_dest c'))) (rev D) /\ c_acc c' = [].
+Proof.
+  intros W D [d|h] Hc; cbn [c_flush cinv] in *.
+  - destruct Hc as (Hd & Hnf).
+    destruct (flush_dinv W D d Hd Hnf) as (c' & E & Hd1 & Hnf1 & Hr1 & Ht & Hok & Hacc).
+    rewrite E. exists (CDyn c'). split; [reflexivity|]. split; [split; assumption|].
+    split; [exact Hr1|]. split; [exact Ht|]. split; [exact Hok|exact Hacc].
+  - destruct Hc as (Hh & Hnf).
+    destruct (huf_flush_hinv W D h Hh Hnf) as (h' & E & Hh1 & Hnf1 & Hb1 & Ht & Hok & Hacc).
+    rewrite E. exists (CHuf h'). split; [reflexivity|]. split; [split; assumption|].
+    split; [cbn [cready]; rewrite Hb1, lenN_nil; unfold huf_max; lia|].
+    split; [exact Ht|]. split; [exact Hok|exact Hacc].
+Qed.
+
+Lemma c_close_cinv : forall W D c, cinv W D c ->
+  exists c', c_close c = (c', false) /\ comp_oob c' = false /\
+    trace_complete (rev (dtrace (c_dest c'))) = true /\
+    tr_ok W (rev (dtrace (c_dest c'))) (rev D).
+Proof.
+  intros W D [d|h] Hc; cbn [c_close cinv] in *.
+  - destruct Hc as (Hd & Hnf).
+    destruct (close_dinv W D d Hd Hnf) as (c' & E & Hoob & Hcomp & Hok).
+    rewrite E. exists (CDyn c'). split; [reflexivity|]. split; [exact Hoob|]. split; assumption.
+  - destruct Hc as (Hh & Hnf).
+    destruct (huf_encode_final W D h Hh Hnf) as (h' & E & Hcomp & Hok).
+    rewrite E. exists (CHuf h'). split; [reflexivity|]. split; [reflexivity|]. split; assumption.
+Qed.
+
+(* ------------------------------------------------------------------ *)
+(* Writer.Write's loop, then whole histories                            *)
+
+Lemma write_loop_cinv : forall W fuel data c D num, cinv W D c -> cready c -> bytes_ok data ->
+  (length data <= fuel)%nat ->
+  exists c' n, write_loop comp c_accumulate c_compress fuel c data num = Some (c', n, false) /\
+    cinv W (D ++ data) c' /\ cready c'.
+Proof.
+  intros W. induction fuel as [|f IH]; intros data c D num Hc Hr Hb Hlen.
+  - destruct data as [|x data]; [|cbn [length] in Hlen; lia].
+    exists c, num. split; [reflexivity|]. rewrite app_nil_r. split; assumption.
+  - destruct data as [|x data].
+    + exists c, num. split; [reflexivity|]. rewrite app_nil_r. split; assumption.
+    + cbn [write_loop].
+      destruct (c_accumulate_cinv W D c (x :: data) Hc Hr Hb ltac:(discriminate))
+        as (c1 & k & trig & E & Hk & Hc1 & Hr1).
+      rewrite E.
+      assert (Hb' : bytes_ok (skipn k (x :: data))).
+      { unfold bytes_ok in *. rewrite Forall_forall in *. intros y Hy. apply Hb.
+        eapply In_skipn. exact Hy. }
+      assert (Hlen' : (length (skipn k (x :: data)) <= f)%nat).
+      { rewrite skipn_length. lia. }
+      assert (HD : D ++ x :: data = (D ++ firstn k (x :: data)) ++ skipn k (x :: data)).
+      { rewrite <- app_assoc, firstn_skipn. reflexivity. }
+      rewrite HD. destruct trig.
+      * destruct (c_compress_cinv W _ c1 Hc1) as (c2 & E2 & Hc2 & Hr2). rewrite E2.
+        apply IH; assumption.
+      * apply IH; auto.
+Qed.
+
+Lemma wrun_app : forall fuel a b (w : writer comp),
+  W_run fuel w (a ++ b) =
+  match W_run fuel w a with
+  | None => None
+  | Some (w1, f1) =>
+    match W_run fuel w1 b with None => None | Some (w2, f2) => Some (w2, f1 ++ f2) end
+  end.
+Proof.
+  intros fuel. unfold W_run. induction a as [|o r IH]; intros b w.
+  - cbn [app WriterSM.wrun]. destruct (WriterSM.wrun _ _ _ _ _ _ fuel w b) as [[w2 f2]|]; reflexivity.
+  - cbn [app WriterSM.wrun].
+    destruct (wstep comp c_accumulate c_compress c_flush c_close (c_reset_to None) fuel w o)
+      as [[w1 e]|]; [|reflexivity].
+    rewrite IH.
+    destruct (WriterSM.wrun _ _ _ _ _ _ fuel w1 r) as [[w2 es]|]; [|reflexivity].
+    destruct (WriterSM.wrun _ _ _ _ _ _ fuel w2 b) as [[w3 f3]|]; reflexivity.
+Qed.
+
+Lemma run_cinv : forall W fuel h w D, no_close h -> bytes_ok (hist_data h) ->
+  (length (hist_data h) <= fuel)%nat -> we comp w = ENone ->
+  cinv W D (wc comp w) -> cready (wc comp w) ->
+  exists w' flags, W_run fuel w (map hop_op h) = Some (w', flags) /\
+    Forall (fun e => e = false) flags /\ we comp w' = ENone /\
+    cinv W (D ++ hist_data h) (wc comp w') /\ cready (wc comp w').
+Proof.
+  intros W fuel. unfold W_run.
+  induction h as [|o r IH]; intros w D Hnc Hb Hlen Hwe Hc Hr.
+  - exists w, []. split; [reflexivity|]. split; [constructor|]. split; [exact Hwe|].
+    cbn [hist_data flat_map]. rewrite app_nil_r. split; assumption.
+  - inversion Hnc as [|o' r' Ho Hncr]; subst.
+    change (hist_data (o :: r)) with ((match o with HWrite d => d | _ => [] end) ++ hist_data r) in *.
+    unfold bytes_ok in Hb. apply Forall_app in Hb. destruct Hb as (Hb1 & Hb2).
+    rewrite app_length in Hlen.
+    cbn [map WriterSM.wrun]. destruct o as [d| |]; [| |congruence].
+    + cbn [hop_op wstep]. unfold wwrite. rewrite Hwe.
+      destruct (write_loop_cinv W fuel d (wc comp w) D 0%nat Hc Hr Hb1 ltac:(lia))
+        as (c' & n & E & Hc' & Hr').
+      rewrite E.
+      destruct (IH (mkw comp c' ENone) (D ++ d) Hncr Hb2 ltac:(lia) eq_refl Hc' Hr')
+        as (w' & flags & E' & Hfl & Hwe' & Hc'' & Hr'').
+      rewrite E'. exists w', (false :: flags). split; [reflexivity|].
+      split; [constructor; [reflexivity|exact Hfl]|]. split; [exact Hwe'|].
+      rewrite app_assoc. split; assumption.
+    + cbn [hop_op wstep]. unfold wflush. rewrite Hwe.
+      destruct (c_flush_cinv W D (wc comp w) Hc) as (c' & E & Hc' & Hr' & _).
+      rewrite E.
+      destruct (IH (mkw comp c' ENone) D Hncr Hb2 ltac:(lia) eq_refl Hc' Hr')
+        as (w' & flags & E' & Hfl & Hwe' & Hc'' & Hr'').
+      rewrite E'. exists w', (false :: flags). split; [reflexivity|].
+      split; [constructor; [reflexivity|exact Hfl]|]. split; [exact Hwe'|].
+      cbn [app]. split; assumption.
+Qed.
+
+Lemma comp_new_cinv : forall sync level win4k,
+  cinv (window_of level win4k) [] (comp_new sync level win4k None) /\
+  cready (comp_new sync level win4k None).
+Proof.
+  intros sync level win4k. unfold comp_new, window_of.
+  destruct (level =? (-2))%Z.
+  - cbn [cinv cready huf_new hbuf hdest dest_new dtrace]. split; [split; [|constructor]|].
+    + split; [reflexivity|]. split; [rewrite lenN_nil; unfold huf_max; lia|].
+      exists []. split; [apply tr_ok_nil|reflexivity].
+    + rewrite lenN_nil. unfold huf_max. lia.
+  - set (W := if win4k then 4096 else 32768).
+    assert (HW : 0 < W /\ W <= 32768) by (unfold W; destruct win4k; lia).
+    cbn [cinv cready]. split; [split; [|constructor]|].
+    + split; [apply new_oinv; lia|]. split; [reflexivity|]. split; [reflexivity|].
+      split; [constructor|]. split; [exact max_token_pos|].
+      cbn [dyn_new dbuf dproc didx ddest dtoks dest_new dtrace].
+      split; [rewrite lenN_nil; lia|].
+      exists []. split; [reflexivity|]. split; [reflexivity|].
+      exists []. split; [apply tr_ok_nil|]. split; [exact I|]. split; [constructor|reflexivity].
+    + unfold dready. cbn [dyn_new dbuf dW didx]. left. rewrite lenN_nil. lia.
+Qed.
+
+Lemma hist_data_app : forall a b, hist_data (a ++ b) = hist_data a ++ hist_data b.
+Proof. intros a b. unfold hist_data. apply flat_map_app. Qed.
+
+Lemma tr_ok_data : forall W evs D, tr_ok W evs (rev D) -> trace_toks_ok W evs 0 /\ trace_data evs = D.
+Proof.
+  intros W evs D (H1 & H2). split; [exact H1|]. unfold trace_data. rewrite H2. apply rev_involutive.
+Qed.
+
+Theorem trace_content : trace_content_statement.
+Proof.
+  unfold trace_content_statement. intros sync level win4k h Hnc Hb.
+  unfold hrun. fold (W_run (S (length (hist_data (h ++ [HClose]))))
+                          (mkw comp (comp_new sync level win4k None) ENone) (map hop_op (h ++ [HClose]))).
+  rewrite map_app, wrun_app, hist_data_app. cbn [hist_data flat_map]. rewrite app_nil_r.
+  destruct (comp_new_cinv sync level win4k) as (Hc0 & Hr0).
+  destruct (run_cinv (window_of level win4k) (S (length (hist_data h))) h
+              (mkw comp (comp_new sync level win4k None) ENone) [] Hnc Hb ltac:(lia) eq_refl Hc0 Hr0)
+    as (w1 & flags & E & Hfl & Hwe & Hc1 & _).
+  rewrite E. cbn [app] in Hc1.
+  destruct (c_close_cinv _ _ _ Hc1) as (c' & Ec & Hoob & Hcomp & Hok).
+  apply tr_ok_data in Hok. destruct Hok as (Hok1 & Hok2).
+  unfold W_run. cbn [map hop_op WriterSM.wrun wstep]. unfold wclose. rewrite Hwe, Ec.
+  exists (mkw comp c' EClosed), (flags ++ [false]). split; [reflexivity|].
+  split; [apply Forall_app; split; [exact Hfl|constructor; [reflexivity|constructor]]|].
+  split; [reflexivity|]. unfold run_trace. cbn [wc].
+  split; [exact Hoob|]. split; [exact Hcomp|]. split; [exact Hok1|exact Hok2].
+Qed.
+
+Theorem trace_flush_content : trace_flush_content_statement.
+Proof.
+  unfold trace_flush_content_statement. intros sync level win4k h Hnc Hb.
+  unfold hrun. fold (W_run (S (length (hist_data (h ++ [HFlush]))))
+                          (mkw comp (comp_new sync level win4k None) ENone) (map hop_op (h ++ [HFlush]))).
+  rewrite map_app, wrun_app, hist_data_app. cbn [hist_data flat_map]. rewrite app_nil_r.
+  destruct (comp_new_cinv sync level win4k) as (Hc0 & Hr0).
+  destruct (run_cinv (window_of level win4k) (S (length (hist_data h))) h
+              (mkw comp (comp_new sync level win4k None) ENone) [] Hnc Hb ltac:(lia) eq_refl Hc0 Hr0)
+    as (w1 & flags & E & Hfl & Hwe & Hc1 & _).
+  rewrite E. cbn [app] in Hc1.
+  destruct (c_flush_cinv _ _ _ Hc1) as (c' & Ec & Hc' & _ & (t & Ht) & Hok & Hacc).
+  apply tr_ok_data in Hok. destruct Hok as (Hok1 & Hok2).
+  unfold W_run. cbn [map hop_op WriterSM.wrun wstep]. unfold wflush. rewrite Hwe, Ec.
+  exists (mkw comp c' ENone), (flags ++ [false]), (rev t). split; [reflexivity|].
+  split; [apply Forall_app; split; [exact Hfl|constructor; [reflexivity|constructor]]|].
+  split; [reflexivity|]. unfold run_trace, run_acc. cbn [wc].
+  split; [rewrite Ht; reflexivity|]. split.
+  - assert (Hnf : nonfinal (dtrace (c_dest c'))).
+    { destruct c' as [d|hh]; cbn [cinv c_dest] in *; apply Hc'. }
+    rewrite Ht in Hnf. inversion Hnf; subst. apply Forall_rev. assumption.
+  - split; [exact Hok1|]. split; [exact Hok2|]. destruct c'; exact Hacc.
+Qed.
+
+Print Assumptions trace_content.
+Print Assumptions trace_flush_content.
+Print Assumptions no_oob.
